@@ -76,8 +76,24 @@ pub fn run(ctx: &mut Ctx) {
     // recorded witness of a residual-hash collision that made the component cache return the
     // diagram of CNF|x=T while compiling CNF|x=F (F12): pointwise check on the assignment where
     // the two differ, both node stores (2 308 variables: evaluated along one path, no truth table)
-    for case in ctx.cases("hash_witness", 4, false) {
-        ctx.run_case("hash_witness", case, |ctx, _rng| if case < 2 { hash_witness(ctx, case % 2 == 1) } else { hash_witness3(ctx, case % 2 == 1) });
+    for case in ctx.cases("hash_witness", 5, false) {
+        ctx.run_case("hash_witness", case, |ctx, _rng| match case {
+            0 | 1 => hash_witness(ctx, case % 2 == 1),
+            2 | 3 => hash_witness3(ctx, case % 2 == 1),
+            _ => {
+                // F18: recorded collision of the 64-bit semantic hash (semantic node store)
+                let cl: Clauses = crate::witness::witness5();
+                let exp = clauses_tt(&cl, 7);
+                let b = SemanticDecisionNNFBuilder::<{ primes::U64_LARGEST }>::new(VarOrder::linear_order(7));
+                let got = BddWalker::new(7).tt(b.compile_cnf_topdown(&clauses_to_cnf(&cl)));
+                ctx.count("witness_compilations", 1);
+                ctx.case_eval(Some(crate::rng::mix(0xF18)));
+                if got != exp {
+                    ctx.violation("topdown.function.witness", "top-down result (semantic store) differs from the CNF (recorded collision of the 64-bit semantic hash)",
+                        json!({"store": "semantic64", "witness": 5, "observed": got.hex(), "expected": exp.hex()}));
+                }
+            }
+        });
     }
     // fault injection on hash quality (hook H5): the residual hash keeps only its low 0..8 bits,
     // so different residual formulas share a component-cache key all the time; the compiled
